@@ -1,5 +1,6 @@
 pub mod iofault;
 pub mod par;
+pub mod privdrop;
 pub mod rec;
 pub mod report;
 pub mod vclock;
